@@ -16,6 +16,8 @@ Definition stabilised_in (f : string) : option since :=
   else if String.eqb f "abi_efiapi" then Some (SinceStable 68 0)        (* extern "efiapi", 1.68 *)
   else if String.eqb f "core_ffi_c" then Some (SinceStable 64 0)        (* core::ffi::c_int &c, 1.64 *)
   else if String.eqb f "const_cstr" then Some (SinceStable 59 0)        (* const CStr::from_bytes_with_nul_unchecked, 1.59 *)
+  (* library items the generated text may name (not rows of bindgen's table; used by the CLI token scan) *)
+  else if String.eqb f "lib_core_ffi_cstr" then Some (SinceStable 64 0) (* core::ffi::CStr, 1.64 (std::ffi::CStr: 1.0) *)
   else if String.eqb f "vectorcall_abi" then Some NightlyOnly
   else if String.eqb f "ptr_metadata" then Some NightlyOnly
   else if String.eqb f "layout_for_ptr" then Some NightlyOnly
